@@ -110,6 +110,22 @@ func ownerStartedBefore(p *Prog, op *ChanOp) (bool, string) {
 		})
 		return found
 	}
+	// guarded by the node's existence flag: `if !recv.started.Load() { return }` earlier in the function
+	if enclosingIfWhere(p, op.Node, f.Body, func(cond ast.Expr, inThen bool) bool {
+		cnd := unparen(cond)
+		neg := false
+		if u, ok := cnd.(*ast.UnaryExpr); ok && u.Op == token.NOT {
+			neg, cnd = true, unparen(u.X)
+		}
+		cl, ok := cnd.(*ast.CallExpr)
+		if !ok {
+			return false
+		}
+		fv, meth, _ := atomicFieldCall(in, cl)
+		return fv != nil && existenceFlags(p)[fv] && meth == "Load" && neg != inThen
+	}) != nil {
+		return true, "posted only after the owner's loop was launched (existence flag set where the goroutine is started)"
+	}
 	for _, pt := range g.AllPoints() {
 		n := pt.Node()
 		if !g.Dominates(pt, opt) || pt == opt {
@@ -1882,6 +1898,59 @@ func bufferedMapElementOnce(p *Prog, op *ChanOp) (bool, string) {
 		}
 		return true
 	})
+	if stores == 0 && okAll {
+		// the map is built by a same-package helper: look at the stores into the map that helper returns
+		defs, _ := localDefs(rin, f.Root().Body, mo)
+		for _, d := range defs {
+			dc, ok := unparen(d).(*ast.CallExpr)
+			if !ok {
+				okAll = false
+				continue
+			}
+			cf := p.byObj[callee(rin, dc)]
+			if cf == nil || cf.Pkg != f.Pkg || cf.Body == nil {
+				okAll = false
+				continue
+			}
+			cin := info(cf)
+			var ret types.Object
+			inspectNoLit(cf.Body, func(m ast.Node) bool {
+				if r, ok := m.(*ast.ReturnStmt); ok && len(r.Results) == 1 {
+					if rid, ok := unparen(r.Results[0]).(*ast.Ident); ok {
+						ret = objOf(cin, rid)
+					} else {
+						okAll = false
+					}
+				}
+				return true
+			})
+			inspectNoLit(cf.Body, func(m ast.Node) bool {
+				as, ok := m.(*ast.AssignStmt)
+				if !ok || len(as.Lhs) != len(as.Rhs) {
+					return true
+				}
+				for i, l := range as.Lhs {
+					ix, ok := unparen(l).(*ast.IndexExpr)
+					if !ok {
+						continue
+					}
+					if bid, ok := unparen(ix.X).(*ast.Ident); !ok || objOf(cin, bid) != ret || ret == nil {
+						continue
+					}
+					stores++
+					cl, ok := unparen(as.Rhs[i]).(*ast.CallExpr)
+					if !ok {
+						okAll = false
+						continue
+					}
+					if isMk, capc := makeChanCap(cin, cl); !isMk || capc != ">=1" {
+						okAll = false
+					}
+				}
+				return true
+			})
+		}
+	}
 	if stores == 0 || !okAll {
 		return false, ""
 	}
